@@ -15,3 +15,95 @@ def obligations(tier):
     return [Ob('C07.a/number-formatting', 'C07_format.c', engine='N', unwind=24, timeout=600,
                functions=['add_double', 'add_complex'], bounds='precision 1..1000 symbolic', stubs=['printf-family length contract', 'yaml_document_add_scalar'],
                what='add_double / add_complex never write beyond their buffer for any accepted precision')]
+
+
+def run(tier, only=None):
+    """C07.a (CBMC, number formatting) + C07.b (whole-flow save -> load round trip through the document model, props/yamlflow.py)"""
+    import os, json, time, re
+    from vf import core
+    from props import calrun, yamlflow
+    t0 = time.time()
+    obs = obligations(tier)
+    if only: obs = [o for o in obs if only in o.id]
+    rc_a = core.run_property('C07', obs, tier, META) if obs else 0
+    ev_a = json.load(open(os.path.join(core.VERIF, 'evidence', 'C07.json'))) if obs else None
+    ctx = core.Ctx()
+    try:
+        ml = calrun.build_whole_ir(ctx); calrun.load_module(ml)
+        jobs = [dict(j, kind='C07', tier=tier) for j in yamlflow.c07_jobs(tier) if not only or only in j['id']]
+        results = calrun.run_jobs(yamlflow.worker, jobs, par=max(1, core.NCPU - 1), timeout=900, mem_gb=10) if jobs else []
+        viol = []
+        native = calrun.Native(ctx)
+        for r, j in zip(results, jobs):
+            if r.get('error'): continue
+            whats = []
+            if r.get('fault'): whats.append('memory fault / abort in the symbolic run of the real code: ' + r['fault'])
+            for x in r.get('sat', []): whats.append('%s %s' % (x.get('q'), json.dumps(x.get('detail', x.get('model')), default=str)[:300]))
+            if not whats: continue
+            rd = os.path.join(core.VERIF, 'evidence', 'replay', 'C07_' + re.sub(r'\W+', '_', r['id']))
+            ok, how, outp = native.run_c(native_roundtrip(j), rd)
+            json.dump({'property': 'C07', 'job': j, 'what': whats[:10], 'native': how}, open(os.path.join(rd, 'cex.json'), 'w'), indent=1, default=str)
+            viol.append({'id': r['id'], 'what': ' ;; '.join(whats[:6]), 'replay': rd, 'confirmed': ok, 'how': how})
+        meta = {'checker_cmd': 'CBMC 6.11 on vnacal_save.c number formatting  +  clang-14 IR (whole library) -> vf/irx.py + vf/yamlmodel.py (document-API model) | z3',
+                'trusted_base': (ev_a or {}).get('coverage', {}).get('trusted_base', []) + ['vf/irx.py, vf/yamlmodel.py (libyaml emitter + parser modelled as the identity on documents)', 'z3'],
+                'functions': ['add_double', 'add_complex', 'vnacal_save', 'vnacal_load', 'parse_document', '_vnaproperty_yaml_export', '_vnaproperty_yaml_import', 'vnacal_property_*', '...'],
+                'bounds': 'C07.a: ' + META['bounds'] + '.  C07.b: %d save -> load jobs: 1..3 calibrations of all 8 types (1x1 .. 2x2; 3x3 in thorough) built by the real vnacal_new flow with symbolic error terms, 1..3 frequencies, '
+                          'default / 4-digit / maximum precision, global and per-calibration property trees (with and without)' % len(jobs),
+                'outside': 'libyaml itself (emitter text, parser, quoting: modelled as the identity on documents incl. scalar style), digits of symbolic numbers (placeholders), legacy file versions, parameters saved with the calibration',
+                'explanation': yamlflow.__doc__, 'assumptions': ['libyaml emitter-then-parser is the identity on documents', 'exact real arithmetic'],
+                'samples': [{'id': r.get('id'), 'queries': r.get('queries'), 'file_bytes': r.get('file_bytes'), 'time_s': r.get('time')} for r in results[:20]], 'evidence': False}
+        rc_b, ev_b = calrun.report('C07', tier, results, viol, meta, t0)
+        ev = ev_b
+        if ev_a:
+            ev['coverage']['obligations'] += ev_a['coverage'].get('obligations', 0); ev['coverage']['discharged'] += ev_a['coverage'].get('discharged', 0)
+            ev['coverage']['cbmc_part'] = {k: ev_a['coverage'].get(k) for k in ('obligations', 'discharged', 'solver_time_s', 'functions_encoded', 'samples') if k in ev_a['coverage']}
+            ev['violations'] += ev_a.get('violations', 0)
+        ev['wall_s'] = round(time.time() - t0, 1)
+        json.dump(ev, open(os.path.join(core.VERIF, 'evidence', 'C07.json'), 'w'), indent=1)
+        return max(rc_a, rc_b) if 1 not in (rc_a, rc_b) else 1
+    finally:
+        ctx.close()
+
+
+def native_roundtrip(job):
+    """save -> load natively: 1-port T8 calibrations from numeric data carrying the job's property expressions; names, types, whole property trees and the
+    applied S of a probe measurement must agree between the original and the loaded object"""
+    from props import yamlflow
+    def cstr(b): return b.decode('utf-8').replace('\\', '\\\\').replace('"', '\\"')
+    L = ['#include <stdio.h>', '#include <stdlib.h>', '#include <string.h>', '#include <math.h>', '#include <complex.h>', '#include <unistd.h>', '#include <vnacal.h>',
+         'static void errfn(const char *m, void *a, vnaerr_category_t c) { fprintf(stderr, "libvna: %s\\n", m); }',
+         'static int same(const vnaproperty_t *a, const vnaproperty_t *b) {',
+         '  if (a == NULL || b == NULL) return a == b;',
+         '  int ta = vnaproperty_type(a, "."), tb = vnaproperty_type(b, "."); if (ta != tb) return 0;',
+         '  if (ta == \'s\') return strcmp(vnaproperty_get(a, "."), vnaproperty_get(b, ".")) == 0;',
+         '  if (ta == \'l\') { int n = vnaproperty_count(a, "."); if (n != vnaproperty_count(b, ".")) return 0; for (int i = 0; i < n; ++i) if (!same(vnaproperty_get_subtree(a, "[%d]", i), vnaproperty_get_subtree(b, "[%d]", i))) return 0; return 1; }',
+         '  if (ta == \'m\') { const char **ka = vnaproperty_keys(a, "."), **kb = vnaproperty_keys(b, "."); int ok = 1; int i = 0;',
+         '    for (; ok && ka[i] != NULL; ++i) { if (kb[i] == NULL || strcmp(ka[i], kb[i]) != 0) { ok = 0; break; } char *q = vnaproperty_quote_key(ka[i]); ok = same(vnaproperty_get_subtree(a, "%s", q), vnaproperty_get_subtree(b, "%s", q)); free(q); }',
+         '    if (ok && kb[i] != NULL) ok = 0; free(ka); free(kb); return ok; }',
+         '  return 1; }',
+         'int main(void) { int bad = 0; vnacal_t *vcp = vnacal_create(errfn, NULL); const double fv[2] = {1e9, 2e9};']
+    for k, cname in enumerate(job['cals']):
+        L += ['  { vnacal_new_t *vnp = vnacal_new_alloc(vcp, VNACAL_T8, 1, 1, 2); vnacal_new_set_frequency_vector(vnp, fv);',
+              '    double complex s[2] = {-0.9 + 0.01 * %d, -0.8}, o[2] = {0.95, 0.9 + 0.02 * I}, m[2] = {0.01 * %d, 0.02}; double complex *p[1];' % (k, k + 1),
+              '    p[0] = s; vnacal_new_add_single_reflect_m(vnp, p, 1, 1, VNACAL_SHORT, 1); p[0] = o; vnacal_new_add_single_reflect_m(vnp, p, 1, 1, VNACAL_OPEN, 1);',
+              '    p[0] = m; vnacal_new_add_single_reflect_m(vnp, p, 1, 1, VNACAL_MATCH, 1); if (vnacal_new_solve(vnp) != 0) return 2;',
+              '    int ci = vnacal_add_calibration(vcp, "cal %d", vnp); if (ci != %d) { fprintf(stderr, "VF-ASSERT-FAIL: index\\n"); bad = 1; }' % (k, k)]
+        if job['props'] is True or (job['props'] == 'first' and k == 0) or (job['props'] == 'second' and k == 1):
+            for ex_ in yamlflow.cal_exprs(k):
+                if ex_ != b'tricky={}': L.append('    vnacal_property_set(vcp, ci, "%%s", "%s");' % cstr(ex_))
+        L.append('    vnacal_new_free(vnp); }')
+    for ex_ in yamlflow.global_exprs(job): L.append('  vnacal_property_set(vcp, -1, "%%s", "%s");' % cstr(ex_))
+    L += ['  vnacal_set_dprecision(vcp, VNACAL_MAX_PRECISION); vnacal_set_fprecision(vcp, VNACAL_MAX_PRECISION);',
+          '  unlink("vf_rt.vnacal"); if (vnacal_save(vcp, "vf_rt.vnacal") != 0) { fprintf(stderr, "VF-ASSERT-FAIL: save failed\\n"); return 1; }',
+          '  vnacal_t *w = vnacal_load("vf_rt.vnacal", errfn, NULL); if (w == NULL) { fprintf(stderr, "VF-ASSERT-FAIL: load failed\\n"); return 1; }',
+          '  if (vnacal_get_calibration_end(w) != vnacal_get_calibration_end(vcp)) { fprintf(stderr, "VF-ASSERT-FAIL: calibration count\\n"); bad = 1; }',
+          '  for (int ci = -1; ci < vnacal_get_calibration_end(vcp); ++ci) {',
+          '    if (!same(vnacal_property_get_subtree(vcp, ci, "."), vnacal_property_get_subtree(w, ci, "."))) { fprintf(stderr, "VF-ASSERT-FAIL: property tree %d differs after save and load\\n", ci); bad = 1; }',
+          '    if (ci < 0) continue;',
+          '    if (strcmp(vnacal_get_name(vcp, ci), vnacal_get_name(w, ci)) != 0 || vnacal_get_type(vcp, ci) != vnacal_get_type(w, ci)) { fprintf(stderr, "VF-ASSERT-FAIL: name / type of calibration %d\\n", ci); bad = 1; }',
+          '    double complex mm[2] = {0.3 + 0.1 * I, -0.2}; double complex *mp[1] = {mm}; vnadata_t *d1 = vnadata_alloc(errfn, NULL), *d2 = vnadata_alloc(errfn, NULL);',
+          '    if (vnacal_apply_m(vcp, ci, fv, 2, mp, 1, 1, d1) != 0 || vnacal_apply_m(w, ci, fv, 2, mp, 1, 1, d2) != 0) { fprintf(stderr, "VF-ASSERT-FAIL: apply\\n"); bad = 1; }',
+          '    else for (int f = 0; f < 2; ++f) if (vnadata_get_cell(d1, f, 0, 0) != vnadata_get_cell(d2, f, 0, 0)) { fprintf(stderr, "VF-ASSERT-FAIL: applied S differs for calibration %d\\n", ci); bad = 1; }',
+          '    vnadata_free(d1); vnadata_free(d2); }',
+          '  unlink("vf_rt.vnacal"); vnacal_free(w); vnacal_free(vcp); return bad; }']
+    return '\n'.join(L) + '\n'
